@@ -382,6 +382,20 @@ func TestRegression(t *testing.T) {
 	}
 }
 
+// TestConcurrent (variant "conc", -race): the same sequential oracles, with the
+// cases of a batch checked from 8 goroutines at once, so that hidden shared
+// state behind functions that look pure (pools, package-level buffers,
+// in-place edits) shows as a data race or a wrong result.
+func TestConcurrent(t *testing.T) {
+	if vp.Variant() != "conc" {
+		t.Skip("runs in the conc variant (-race)")
+	}
+	vp.RunConcurrent(t, durProp, 50, 64, 8)
+	vp.RunConcurrent(t, hpProp, 100, 64, 8)
+	vp.RunConcurrent(t, prefixProp, 100, 64, 8)
+	vp.RunConcurrent(t, urlProp, 150, 64, 8)
+}
+
 func TestDuration(t *testing.T) { vp.Run(t, durProp) }
 func TestHostPort(t *testing.T) { vp.Run(t, hpProp) }
 func TestPrefix(t *testing.T)   { vp.Run(t, prefixProp) }
